@@ -437,3 +437,7 @@ def run(ctx):
              "with / without ranks; each loom must be visited and sort_by_rank set exactly when all have ranks")
     from rules import round3
     round3.check_set_sort_criteria(ctx, "R15.5")
+    ctx.rule("R15.6", "the CPUs of a loom are ordered by physical id whether or not the loom has ranks (loom_sort "
+             "evaluated for both values of rank_enabled)")
+    from rules import round4
+    round4.check_cpus_sorted_always(ctx, "R15.6")
